@@ -1085,8 +1085,14 @@ func bareProbe(sc *scenario) string {
 			}
 			return s
 		}
+		// outcomes may depend on how ties between paths are broken: the verdict needs four equal outcomes on fresh objects
+		// without Redefine, four equal outcomes on fresh objects after Redefine, and the two to differ; scenarios with
+		// scripted failures or run-once functions are left to the histories
+		if !plainFuncs(sc) {
+			return
+		}
 		before := coarse(class())
-		for k := 0; k < 2; k++ {
+		for k := 0; k < 3; k++ {
 			if sc.buildAll() != nil {
 				return
 			}
@@ -1095,12 +1101,20 @@ func bareProbe(sc *scenario) string {
 				return // not determined without Redefine either
 			}
 		}
-		if sc.buildAll() != nil {
-			return
+		after := ""
+		for k := 0; k < 4; k++ {
+			if sc.buildAll() != nil {
+				return
+			}
+			f = sc.Funcs[0].fn
+			f.Redefine()
+			a := coarse(class())
+			if k > 0 && a != after {
+				verdict = "intact" // not determined after Redefine: nothing to conclude
+				return
+			}
+			after = a
 		}
-		f = sc.Funcs[0].fn
-		f.Redefine()
-		after := coarse(class())
 		if before == after {
 			verdict = "intact"
 		} else {
